@@ -506,13 +506,10 @@ Definition interp_dcs (tok : token) (ps ints : list N) (final : N) (data : list 
   match ps, ints, final with
   | [], [36], 113 => [ODecrqss data]                       (* DCS $ q Pt ST *)
   | [], [43], 113 =>                                        (* DCS + q Pt ST, names in hex *)
-      match data with
-      | [] => [OXtgettcap []]
-      | _ =>
-          match sequence (map unhex (split 59 data)) with
-          | Some names => [OXtgettcap names]
-          | None => [OUnknown tok]
-          end
+      (* Pt = hex-encoded names separated by `;`: an empty Pt is ONE empty name *)
+      match sequence (map unhex (split 59 data)) with
+      | Some names => [OXtgettcap names]
+      | None => [OUnknown tok]
       end
   | _, _, _ => [OUnknown tok]
   end.
